@@ -114,6 +114,26 @@ pub fn generate(rng: &mut Rng, tier: Tier, stats: &mut GenStats) -> Scenario {
         _ => 0,
     };
     w.depth = depth_behaviour(&mut g, deepest, prefix_len);
+    // the fourth public constructor: a window relative to the smallest depth the glob itself can
+    // match at (`bounded_at_depth_variance`); that depth is read from the public query here and
+    // becomes explicit data of the scenario
+    if let Source::Glob { expr, rooted: false } = &w.source {
+        let plain = dot_kind(expr.split('/').next().unwrap_or("")).is_none();
+        if plain && g.rng.chance(1, 9) {
+            let text = expr.clone();
+            let lower = crate::exec::guarded(|| {
+                wax::Glob::new(&text).ok().map(|glob| match wax::Program::depth(&glob) {
+                    wax::query::Variance::Invariant(d) => d,
+                    wax::query::Variance::Variant(bounds) => bounds.lower().bounded().map_or(0, usize::from),
+                })
+            });
+            if let Ok(Some(lower)) = lower {
+                let a = if g.rng.chance(1, 3) { None } else { Some(g.rng.range(if lower == 0 { 1 } else { 0 }, 3)) };
+                let b = if a.is_some() && g.rng.chance(1, 3) { None } else { Some(g.rng.range(a.unwrap_or(0), a.unwrap_or(0) + 3)) };
+                w.depth = Depth::AtVariance(a, b, lower);
+            }
+        }
+    }
     Scenario {
         prop: "C15".into(),
         seed: 0,
@@ -129,6 +149,23 @@ pub fn generate(rng: &mut Rng, tier: Tier, stats: &mut GenStats) -> Scenario {
 
 pub fn check(sc: &Scenario, env: &mut Env) -> Result<Outcome, HarnessError> {
     let mut out = Outcome::default();
+    // `bounded_at_depth_variance` is only drawn with windows that are valid once translated
+    // (minimum not above maximum, minimum at least one): a refusal leaves the user without the
+    // documented walk, and is reported instead of being taken for a scenario that does not build
+    for (wi, w) in sc.walkers.iter().enumerate() {
+        if let Depth::AtVariance(a, b, lower) = w.depth {
+            if let Err(e) = crate::exec::behavior(w, &env.root_text) {
+                out.violate(
+                    "C15",
+                    "depth",
+                    wi,
+                    format!("DepthBehavior::bounded_at_depth_variance({:?}, {:?}, depth of {:?}) with lowest matching depth {}: {}", a, b, w.source, lower, e),
+                    vec!["constructor-refused".into()],
+                );
+                return Ok(out);
+            }
+        }
+    }
     let log = run_main(sc, env, &mut out)?;
     panic_clause("C15", sc, &log, &mut out);
     let model = model_of(sc)?;
@@ -376,6 +413,7 @@ pub fn check(sc: &Scenario, env: &mut Env) -> Result<Outcome, HarnessError> {
                 Depth::Min(_) => "DepthMin::from_min_or_unbounded",
                 Depth::MinMax(..) => "DepthMinMax::from_depths_or_max",
                 Depth::Bounded(..) => "DepthBehavior::bounded",
+                Depth::AtVariance(..) => "DepthBehavior::bounded_at_depth_variance",
             }
         ));
         if let Depth::MinMax(p, q) = w.depth {
